@@ -61,6 +61,10 @@ def s1(ctx, rep):
             cfg.nodes[loose[0]].ast if loose else None, "", f"{sorted(keyed[loose[0]]) if loose else ''} is set although nothing is promoted: the caller takes a "
             "missing 'milestone' as 'use the first milestone of the trial's bracket', so a new trial in a higher bracket is told to run to the "
             "lowest rung level instead of its own")
+    if rn and not mk:
+        rep.bad("S1", "must_precede", "PromotionRungSystem.on_task_schedule: _mark_as_promoted(rung, pos) ≺ returning the promotion", f, None,
+                "on_task_schedule returns a promotion and never calls _mark_as_promoted: the trial is promoted again from the same rung")
+        return
     if not rn or not mk:
         raise AnchorError("PromotionRungSystem.on_task_schedule: marking / promotion dict not found")
     viol = [r for r in rn if cfg.path(cfg.entry, r, deleted=mk) is not None]
